@@ -270,6 +270,39 @@ class C19Monitor(X.Monitor):
             if len(sub) != want:
                 ctx.violate("C19", "selection", "scene selection %d returns %d rows, expected %d" % (si, len(sub), want), {}, index)
 
+        # area and distance selections: a pair is selected when either of its rows satisfies the criterion
+        try:
+            areas = {}
+            for i in range(len(rows)):
+                vals = set()
+                for role in ("ground_truth", "estimation"):
+                    a = df.loc[(i, role)]["area"]
+                    if not _isnull(a):
+                        vals.add(int(a))
+                for a in vals:
+                    areas[a] = areas.get(a, 0) + 1
+            for a, cnt in sorted(areas.items())[:3]:
+                sub = an.get(area=a)
+                if len(sub) != 2 * cnt:
+                    ctx.violate("C19", "selection", "area selection %d returns %d rows, %d pairs lie in that area" % (a, len(sub), cnt), {}, index)
+            dists = sorted(float(df.loc[(i, role)]["distance"]) for i in range(len(rows)) for role in ("ground_truth", "estimation")
+                           if not _isnull(df.loc[(i, role)]["distance"]))
+            if len(dists) >= 2 and dists[0] < dists[-1]:
+                lo, hi = dists[0], (dists[0] + dists[-1]) / 2.0
+                if lo < hi and not any(abs(d - hi) < 1e-9 for d in dists):
+                    want = sum(1 for i in range(len(rows)) if any(
+                        (not _isnull(df.loc[(i, role)]["distance"])) and lo <= float(df.loc[(i, role)]["distance"]) < hi
+                        for role in ("ground_truth", "estimation")))
+                    sub = an.filter_by_distance((lo, hi))
+                    if len(sub) != 2 * want:
+                        ctx.violate("C19", "selection", "distance selection [%g, %g) returns %d rows, %d pairs qualify" % (lo, hi, len(sub), want), {}, index)
+                    ctx.probe("c19_distance_selection")
+        except Exception as ex:  # noqa
+            hit = X.innermost_repo_frame(__import__("traceback").extract_tb(ex.__traceback__), R["src"])
+            if hit is None:
+                raise
+            ctx.violate("C19", "selection", "selection raised %s in %s" % (type(ex).__name__, hit), {"error": str(ex)[:200]}, index)
+
         # ---- per-object status tallies ------------------------------------------------------------------
         for si, frs in enumerate(stored):
             try:
